@@ -22,9 +22,67 @@ func init() {
 // mapOrderAudit: E8. For every range over a map in the given functions, values accumulated in
 // the loop must be sorted before any other use outside the loop (or the map has exactly one
 // entry on every path to the loop); with strict, no dynamic/recursive call may run inside the loop.
-func mapOrderAudit(c *Ctx, rule string, fns []*ssa.Function, strict bool) int {
+func mapOrderAudit(c *Ctx, rule string, fns []*ssa.Function, strict bool) (ranges, rootsCovered int) {
 	P := c.P
 	n := 0
+	// same-package helpers the functions delegate to are audited with them
+	// (a sorted-keys helper extracted from a walk is still part of the walk)
+	inSet := map[*ssa.Function]bool{}
+	roots := append([]*ssa.Function{}, fns...)
+	for _, f := range fns {
+		inSet[f] = true
+	}
+	defer func() {
+		// a root is covered when it, or a same-package helper it delegates to, ranges over a map
+		hasRange := func(f *ssa.Function) bool {
+			found := false
+			instrs(f, func(in ssa.Instruction) {
+				if rg, ok := in.(*ssa.Range); ok {
+					if _, isMap := rg.X.Type().Underlying().(*types.Map); isMap {
+						found = true
+					}
+				}
+			})
+			return found
+		}
+		for _, root := range roots {
+			seen := map[*ssa.Function]bool{root: true}
+			work := []*ssa.Function{root}
+			cov := false
+			for len(work) > 0 && !cov {
+				f := work[0]
+				work = work[1:]
+				if hasRange(f) {
+					cov = true
+				}
+				for _, g := range withAnon(f) {
+					for _, ci := range callsIn(g) {
+						cal := staticCallee(ci.Common())
+						if cal != nil && cal.Pkg == root.Pkg && len(cal.Blocks) > 0 && !seen[cal] {
+							seen[cal] = true
+							work = append(work, cal)
+						}
+					}
+				}
+			}
+			if cov {
+				rootsCovered++
+			}
+		}
+		ranges = n
+	}()
+	for i := 0; i < len(fns); i++ {
+		for _, g := range withAnon(fns[i]) {
+			for _, ci := range callsIn(g) {
+				cal := staticCallee(ci.Common())
+				if cal == nil || cal.Pkg == nil || cal.Pkg != fns[i].Pkg || len(cal.Blocks) == 0 || inSet[cal] || cal.Synthetic != "" {
+					continue
+				}
+				inSet[cal] = true
+				fns = append(fns, cal)
+			}
+		}
+	}
 	for _, f := range fns {
 		for _, b := range f.Blocks {
 			for _, in := range b.Instrs {
@@ -37,25 +95,9 @@ func mapOrderAudit(c *Ctx, rule string, fns []*ssa.Function, strict bool) int {
 				}
 				n++
 				key := "range " + Expr(rg.X)
-				// single-entry guard: dominated by the true edge of len(X) == 1
-				single := false
-				for _, bb := range f.Blocks {
-					ifi, ok := bb.Instrs[len(bb.Instrs)-1].(*ssa.If)
-					if !ok {
-						continue
-					}
-					bo, ok := ifi.Cond.(*ssa.BinOp)
-					if !ok || bo.Op != token.EQL {
-						continue
-					}
-					la, ok := lenArg(bo.X)
-					if !ok || pkey(la) != pkey(rg.X) {
-						continue
-					}
-					if k, ok := constInt(bo.Y); ok && k == 1 && len(bb.Succs[0].Preds) == 1 && (bb.Succs[0] == b || bb.Succs[0].Dominates(b)) {
-						single = true
-					}
-				}
+				// single-entry guard: the branch conditions on len(X) that dominate the loop leave only len(X) == 1
+				lo, hi := lenBoundsAt(f, b, rg.X)
+				single := lo == 1 && hi == 1
 				if single {
 					c.OK(rule, fnName(f), key, P.Pos(in.Pos()), "the map has exactly one entry on every path to the loop")
 					continue
@@ -152,7 +194,7 @@ func mapOrderAudit(c *Ctx, rule string, fns []*ssa.Function, strict bool) int {
 			}
 		}
 	}
-	return n
+	return n, 0
 }
 
 func runC19(c *Ctx) {
@@ -179,7 +221,7 @@ func runC19(c *Ctx) {
 			}
 		}
 	}
-	n := mapOrderAudit(c, "C19.order", fns, false)
+	n, _ := mapOrderAudit(c, "C19.order", fns, false)
 	c.Floor("C19.order/map-ranges", n, 2)
 
 	// ---- prefix / element table
@@ -345,7 +387,7 @@ func runC19(c *Ctx) {
 		sorted := false
 		var sortInstr ssa.Instruction
 		instrs(sv, func(in ssa.Instruction) {
-			if call, ok := in.(*ssa.Call); ok && calleeName(&call.Call) == "sort.Strings" {
+			if call, ok := in.(*ssa.Call); ok && (strings.HasPrefix(calleeName(&call.Call), "sort.") || strings.HasPrefix(calleeName(&call.Call), "slices.Sort")) {
 				sorted = true
 				sortInstr = in
 			}
@@ -543,4 +585,109 @@ func repetitionOf(got, want string, elems bool) bool {
 		rest = strings.TrimSpace(strings.TrimPrefix(rest, grp))
 	}
 	return strings.HasPrefix(got, pre)
+}
+
+// lenBoundsAt derives, from the If instructions that dominate block b and
+// compare len(X) with a constant, the interval len(X) lies in on every path
+// that reaches b (hi == -1: unbounded).
+func lenBoundsAt(f *ssa.Function, b *ssa.BasicBlock, X ssa.Value) (lo, hi int64) {
+	lo, hi = 0, -1
+	excl := map[int64]bool{}
+	for _, bb := range f.Blocks {
+		if len(bb.Instrs) == 0 {
+			continue
+		}
+		ifi, ok := bb.Instrs[len(bb.Instrs)-1].(*ssa.If)
+		if !ok {
+			continue
+		}
+		bo, ok := ifi.Cond.(*ssa.BinOp)
+		if !ok {
+			continue
+		}
+		op := bo.Op
+		var k int64
+		if la, ok := lenArg(bo.X); ok && pkey(la) == pkey(X) {
+			kk, okc := constInt(bo.Y)
+			if !okc {
+				continue
+			}
+			k = kk
+		} else if la, ok := lenArg(bo.Y); ok && pkey(la) == pkey(X) {
+			kk, okc := constInt(bo.X)
+			if !okc {
+				continue
+			}
+			k = kk
+			// k op len  ==  len op' k
+			switch op {
+			case token.LSS:
+				op = token.GTR
+			case token.GTR:
+				op = token.LSS
+			case token.LEQ:
+				op = token.GEQ
+			case token.GEQ:
+				op = token.LEQ
+			}
+		} else {
+			continue
+		}
+		for edge, s := range bb.Succs {
+			if len(s.Preds) != 1 || !(s == b || s.Dominates(b)) {
+				continue
+			}
+			o := op
+			if edge == 1 { // false edge: negate
+				switch op {
+				case token.EQL:
+					o = token.NEQ
+				case token.NEQ:
+					o = token.EQL
+				case token.LSS:
+					o = token.GEQ
+				case token.GEQ:
+					o = token.LSS
+				case token.GTR:
+					o = token.LEQ
+				case token.LEQ:
+					o = token.GTR
+				}
+			}
+			switch o {
+			case token.EQL:
+				if k > lo {
+					lo = k
+				}
+				if hi < 0 || k < hi {
+					hi = k
+				}
+			case token.NEQ:
+				excl[k] = true
+			case token.LSS:
+				if hi < 0 || k-1 < hi {
+					hi = k - 1
+				}
+			case token.LEQ:
+				if hi < 0 || k < hi {
+					hi = k
+				}
+			case token.GTR:
+				if k+1 > lo {
+					lo = k + 1
+				}
+			case token.GEQ:
+				if k > lo {
+					lo = k
+				}
+			}
+		}
+	}
+	for excl[lo] {
+		lo++
+	}
+	for hi >= 0 && excl[hi] {
+		hi--
+	}
+	return lo, hi
 }
